@@ -191,3 +191,162 @@ R.contract(
     on_raise={"BufferReadError": ["len(context.network_path.remote_challenges) == n0"]},
     prop=["C07"],
 )
+
+
+# ------------------------------------------------------------------------------------------------ send side (C06, C01)
+R.field_types("QuicStream", stream_id="Optional[int]")
+
+# C06: the credit consumed by one STREAM frame is the growth of the stream's highest offset (0 for a retransmission),
+# and the highest offset never passes max_offset (the smaller of the per-stream limit and what is left of the
+# connection limit).  C01: a frame taken out of the send half is always written (no QuicPacketBuilderStop after
+# get_frame), so a FIN-only frame cannot be lost between the stream and the packet.
+R.contract(
+    "QuicConnection._write_stream_frame",
+    requires=[
+        "stream.stream_id is not None and 0 <= stream.stream_id <= 4611686018427387903",
+        "builder._packet is not None",
+        "stream.sender._reset_error_code is None",
+    ],
+    # offsets are representable as QUIC varints (nobody writes 2^62 bytes to a stream); logger plumbing; no builder overrun so far
+    assume_pre=["stream.sender._buffer_stop <= 4611686018427387903", "self._quic_logger is None or builder.quic_logger_frames is not None", "not builder.g_ovr"],
+    returns="int",
+    modifies=[
+        "stream.sender._pending._RangeSet__ranges", "stream.sender._pending.gview", "stream.sender._pending.gidx",
+        "stream.sender._pending_eof", "stream.sender.buffer_is_empty", "stream.sender.highest_offset",
+        "builder._buffer.g_pos", "builder._buffer.g_mem", "QuicSentPacket.is_ack_eliciting[*]", "QuicSentPacket.in_flight[*]",
+        "QuicSentPacket.is_crypto_packet[*]", "QuicSentPacket.delivery_handlers[*]",
+    ],
+    ensures=[
+        "result == stream.sender.highest_offset - old(stream.sender.highest_offset)",
+        "result >= 0",
+        "stream.sender.highest_offset <= max(old(stream.sender.highest_offset), max_offset)",
+        "self._remote_max_data_used == old(self._remote_max_data_used) and self._remote_max_data == old(self._remote_max_data)",
+        "stream.max_stream_data_remote == old(stream.max_stream_data_remote)",
+    ],
+    prop=["C06", "C01"],
+)
+
+# C06: MAX_STREAMS unblocks exactly the queued streams that are now below the limit (in queue order, stopping at the
+# first one that is not), each getting the peer's initial per-stream limit.
+R.contract(
+    "QuicConnection._unblock_streams",
+    let={
+        "q0": "self._streams_blocked_uni if is_unidirectional else self._streams_blocked_bidi",
+        "lim": "self._remote_max_streams_uni if is_unidirectional else self._remote_max_streams_bidi",
+        "n0": "len(self._streams_blocked_uni if is_unidirectional else self._streams_blocked_bidi)",
+    },
+    requires=["forall(lambda k: implies(0 <= k < n0, at(q0, k).stream_id is not None))"],
+    modifies=["self._streams_blocked_bidi", "self._streams_blocked_uni", "self._streams_blocked_pending", "QuicStream.is_blocked[*]", "QuicStream.max_stream_data_remote[*]"],
+    loops={
+        0: dict(
+            invariant=[
+                "0 <= len(streams_blocked) <= n0",
+                "forall(lambda k: implies(0 <= k < len(streams_blocked), at(streams_blocked, k) == at(q0, k + n0 - len(streams_blocked))))",
+                "forall(lambda k: implies(0 <= k < n0 - len(streams_blocked), some(at(q0, k).stream_id) // 4 < max_streams))",
+                "forall(lambda k: implies(0 <= k < n0, at(q0, k).stream_id == old(at(q0, k).stream_id)))",
+                "max_streams == lim",
+            ],
+            modifies=["QuicStream.is_blocked[*]", "QuicStream.max_stream_data_remote[*]", "self._streams_blocked_uni", "self._streams_blocked_bidi", "streams_blocked"],
+            decreases="len(streams_blocked)",
+        )
+    },
+    ensures=[
+        # the streams taken off the queue are a prefix of it and every one of them is below the peer's stream-count limit
+        "len(streams_blocked) <= n0",
+        "forall(lambda k: implies(0 <= k < n0 - len(streams_blocked), some(at(q0, k).stream_id) // 4 < lim))",
+        # the queue keeps the rest, in order; its head (if any) is NOT below the limit
+        "forall(lambda k: implies(0 <= k < len(streams_blocked), at(streams_blocked, k) == at(q0, k + n0 - len(streams_blocked))))",
+        "implies(len(streams_blocked) > 0, some(at(streams_blocked, 0).stream_id) // 4 >= lim)",
+        "self._remote_max_streams_bidi == old(self._remote_max_streams_bidi) and self._remote_max_streams_uni == old(self._remote_max_streams_uni)",
+    ],
+    prop=["C06"],
+)
+
+# C06: limits announced by the peer only ever grow
+R.contract(
+    "QuicConnection._handle_max_data_frame",
+    assume_pre=["self._quic_logger is None or context.quic_logger_frames is not None"],
+    raises={"BufferReadError": None},
+    modifies=["buf.g_pos", "self._remote_max_data", "context.quic_logger_frames"],
+    ensures=["self._remote_max_data == max(old(self._remote_max_data), max_data)", "self._remote_max_data_used == old(self._remote_max_data_used)"],
+    on_raise={"BufferReadError": ["self._remote_max_data == old(self._remote_max_data)"]},
+    prop=["C06"],
+)
+
+R.contract(
+    "QuicConnection._write_reset_stream_frame",
+    requires=["builder._packet is not None", "stream.sender._reset_error_code is not None", "stream.sender._stream_id is not None and 0 <= stream.sender._stream_id <= 4611686018427387903",
+              "0 <= stream.sender._reset_error_code"],
+    assume_pre=["self._quic_logger is None or builder.quic_logger_frames is not None", "not builder.g_ovr", "stream.sender.highest_offset <= 4611686018427387903"],
+    raises={"QuicPacketBuilderStop": None, "ValueError": "stream.sender._reset_error_code > 4611686018427387903"},
+    modifies=["stream.sender.reset_pending", "builder._buffer.g_pos", "builder._buffer.g_mem", "QuicSentPacket.is_ack_eliciting[*]", "QuicSentPacket.in_flight[*]",
+              "QuicSentPacket.is_crypto_packet[*]", "QuicSentPacket.delivery_handlers[*]"],
+    ensures=[
+        "not stream.sender.reset_pending",
+        "stream.sender.highest_offset == old(stream.sender.highest_offset)",
+        "builder._buffer.g_pos > old(builder._buffer.g_pos)",
+    ],
+    on_raise={"QuicPacketBuilderStop": ["stream.sender.reset_pending == old(stream.sender.reset_pending)", "builder._buffer.g_pos == old(builder._buffer.g_pos)"]},
+    prop=["C06"],
+)
+
+# C06 (connection level), block contract on the per-stream sending decision inside _write_application's stream loop:
+#   * credit: the connection-wide counter grows by exactly the growth of this stream's highest offset, stays within the
+#     peer's MAX_DATA, and the stream's highest offset stays within the peer's per-stream limit;
+#   * a stream that is blocked by the peer's stream-count limit puts NOTHING on the wire (the peer has not allowed it to
+#     exist): no STREAM frame and no RESET_STREAM frame.
+_STREAM_REGION_PRE = [
+    "stream.stream_id is not None and 0 <= stream.stream_id <= 4611686018427387903 and stream.sender._stream_id == stream.stream_id",
+    "builder._packet is not None",
+    # connection invariant FC at region entry (established by the previous iterations / calls - assumed here)
+    "self._remote_max_data_used <= self._remote_max_data",
+    "stream.sender.highest_offset <= stream.max_stream_data_remote",
+    "implies(stream.sender._reset_error_code is not None, 0 <= stream.sender._reset_error_code)",
+    "implies(stream.sender.reset_pending, stream.sender._reset_error_code is not None)",
+    "implies(stream.receiver.stop_pending, stream.receiver._stop_error_code is not None and 0 <= stream.receiver._stop_error_code and stream.receiver._stream_id == stream.stream_id)",
+]
+_STREAM_REGION = dict(
+    region={"anchor": "if stream.is_blocked:", "span": 3},  # blocked-stream guard, STOP_SENDING, RESET_STREAM / STREAM
+    params={"builder": "QuicPacketBuilder", "space": "QuicPacketSpace", "stream": "QuicStream", "sent": "set[QuicStream]"},
+    # + visible-state class invariant of the send half (proved for every QuicStreamSender method)
+    assume_pre=_STREAM_REGION_PRE + ["invariant_of(stream.sender)", "self._quic_logger is None or builder.quic_logger_frames is not None", "not builder.g_ovr",
+                                      "stream.sender._buffer_stop <= 4611686018427387903", "stream.sender.highest_offset <= 4611686018427387903"],
+    raises={"QuicPacketBuilderStop": None, "ValueError": None},
+    on_raise={"QuicPacketBuilderStop": ["self._remote_max_data_used == old(self._remote_max_data_used)", "stream.sender.highest_offset == old(stream.sender.highest_offset)"]},
+)
+R.contract(
+    "QuicConnection._write_application@stream_credit",
+    ensures=[
+        "self._remote_max_data_used - old(self._remote_max_data_used) == stream.sender.highest_offset - old(stream.sender.highest_offset)",
+        "self._remote_max_data_used <= self._remote_max_data",
+        "stream.sender.highest_offset <= stream.max_stream_data_remote",
+        "stream.sender.highest_offset >= old(stream.sender.highest_offset)",
+        "self._remote_max_data == old(self._remote_max_data) and stream.max_stream_data_remote == old(stream.max_stream_data_remote)",
+        # a stream blocked by the peer's stream-count limit puts nothing on the wire: no STREAM, RESET_STREAM or STOP_SENDING
+        "implies(old(stream.is_blocked), builder._buffer.g_pos == old(builder._buffer.g_pos) and stream.sender.highest_offset == old(stream.sender.highest_offset))",
+    ],
+    prop=["C06"],
+    **_STREAM_REGION,
+)
+
+R.field_types("QuicStopSendingFrame", error_code="int", stream_id="int")
+R.contract(
+    "QuicStreamReceiver.get_stop_frame",
+    requires=["self._stream_id is not None and self._stop_error_code is not None"],
+    returns="QuicStopSendingFrame",
+    modifies=["self.stop_pending"],
+    ensures=["not self.stop_pending", "result.stream_id == self._stream_id and result.error_code == self._stop_error_code", "self.highest_offset == old(self.highest_offset)"],
+    prop=["C06"],
+)
+R.contract(
+    "QuicConnection._write_stop_sending_frame",
+    requires=["builder._packet is not None", "stream.receiver._stream_id is not None and 0 <= stream.receiver._stream_id <= 4611686018427387903",
+              "stream.receiver._stop_error_code is not None and 0 <= stream.receiver._stop_error_code"],
+    assume_pre=["self._quic_logger is None or builder.quic_logger_frames is not None", "not builder.g_ovr"],
+    raises={"QuicPacketBuilderStop": None, "ValueError": "stream.receiver._stop_error_code > 4611686018427387903"},
+    modifies=["stream.receiver.stop_pending", "builder._buffer.g_pos", "builder._buffer.g_mem", "QuicSentPacket.is_ack_eliciting[*]", "QuicSentPacket.in_flight[*]",
+              "QuicSentPacket.is_crypto_packet[*]", "QuicSentPacket.delivery_handlers[*]"],
+    ensures=["not stream.receiver.stop_pending", "builder._buffer.g_pos > old(builder._buffer.g_pos)"],
+    on_raise={"QuicPacketBuilderStop": ["stream.receiver.stop_pending == old(stream.receiver.stop_pending)", "builder._buffer.g_pos == old(builder._buffer.g_pos)"]},
+    prop=["C06"],
+)
